@@ -244,9 +244,18 @@ def gen_k_plan(run_seed: int, hashseed: int = 0, catalogue=None, p_backend_c: fl
         prob = gen_problem(rng, feat)
     sizes = gen_sizes(rng, prob, feat)
     inputs = {}
+    names_in = list(prob["inputs"])
+    polar = rng.random() < 0.25 and len(names_in) >= 2  # some operands exhausted at once, the rest full
+    empties = set(rng.sample(names_in, rng.randint(1, len(names_in) - 1))) if polar else set()
     for n, ix in prob["inputs"].items():
         dims = [sizes[x] for x in ix]
-        inputs[n] = {"dims": dims, "entries": gen_entries(rng, dims)}
+        density = None
+        if polar:
+            total = 1
+            for d in dims:
+                total *= d
+            density = 0 if n in empties else total
+        inputs[n] = {"dims": dims, "entries": gen_entries(rng, dims, density)}
         if 0 in dims and any(d > 0 for d in dims) and rng.random() < 0.6:
             inputs[n]["stubs"] = [[rng.randrange(d) if d > 0 else None for d in dims]
                                   for _ in range(rng.randint(1, 3))]
@@ -439,6 +448,22 @@ CATALOGUE = [
     ("A(i) = B(i,j) * C(j) - D(i)", {"A": "d", "B": "ds", "C": "d", "D": "s"}),
     ("A(i) = (B(i) + C(i)) * D(i)", {"A": "s", "B": "s", "C": "s", "D": "s"}),
     ("A(i,j) = (B(i,j) + C(i,j)) * D(j)", {"A": "ss", "B": "ss", "C": "ds", "D": "s"}),
+    ("A(i) = (B(i) + C(i)) * D(i) - E(k)", {"A": "s", "B": "s", "C": "s", "D": "s", "E": "d"}),
+    ("A(i) = (B(i) + C(i,j)) * D(i,j) - E(k)", {"A": "s", "B": "s", "C": "ss", "D": "sd", "E": "d"}),
+    ("A(i) = B(i) * C(i) + D(i) * E(i)", {"A": "s", "B": "s", "C": "s", "D": "s", "E": "s"}),
+    ("A(i) = B(i) * C(i) + D(i)", {"A": "d", "B": "s", "C": "s", "D": "d"}),
+    ("A(i,j) = (B(i,j) + C(i,j)) * D(i,j) + E(i,j)", {"A": "ds", "B": "ds", "C": "ds", "D": "ds", "E": "ds"}),
+    ("A(i,j) = B(i,j) * C(i,j) - D(j)", {"A": "dd", "B": "ss", "C": "ss", "D": "d"}),
+    # problems the generator refuses today (NotImplementedError / no kernel): counted as skipped,
+    # but exercised as soon as a change makes them compile
+    ("A(i,j,k) = B(j,i,k)", {"A": "dds", "B": "sds"}),
+    ("A(i,j,k) = B(j,i,k)", {"A": "dds", "B": "dss"}),
+    ("A(i,j,k) = B(j,i,k)", {"A": "dds", "B": "s1s0s2"}),
+    ("A(i,j,k) = B(k,j,i)", {"A": "dds", "B": "sss"}),
+    ("A(i,j,k) = B(j,i,k) + C(i,j,k)", {"A": "dds", "B": "sds", "C": "dds"}),
+    ("A(i,j,k) = B(i,j,k)", {"A": "d1d0s2", "B": "sss"}),
+    ("A(i,j) = B(j,i)", {"A": "ss", "B": "ss"}),
+    ("A(i,j) = B(i,k) * C(k,j)", {"A": "ss", "B": "ss", "C": "ss"}),
     ("A() = B()", {"A": "", "B": ""}),
     ("A() = B() * C()", {"A": "", "B": "", "C": ""}),
     ("A(i) = B()", {"A": "d", "B": ""}),
